@@ -264,3 +264,97 @@ def show(body, noise=False, out=None):
         for s in b["stmts"]:
             print("      %s = %s   // %s" % (pl_str(s["d"]), rv_str(s["rv"]), s["l"]), file=out)
         print("      %s   // %s" % (term_str(t), t.get("l", "")), file=out)
+
+
+# ---------------------------------------------------------------- infeasible-edge pruning (integer tests against constants)
+
+_REL = {"Lt": lambda a, k: a < k, "Le": lambda a, k: a <= k, "Gt": lambda a, k: a > k, "Ge": lambda a, k: a >= k,
+        "Eq": lambda a, k: a == k, "Ne": lambda a, k: a != k}
+_SWAP = {"Lt": "Gt", "Le": "Ge", "Gt": "Lt", "Ge": "Le", "Eq": "Eq", "Ne": "Ne"}
+_NEG = {"Lt": "Ge", "Le": "Gt", "Gt": "Le", "Ge": "Lt", "Eq": "Ne", "Ne": "Eq"}
+
+
+def _const_small_int(o):
+    import re
+    if o[0] != "c":
+        return None
+    m = re.match(r"^(\d+)_(?:usize|u8|u16|u32|u64)$", o[1])
+    return int(m.group(1)) if m else None
+
+
+def infeasible_edges(body):
+    """Edges (src, dst) that cannot be taken because an if-chain over the same unsigned variable with small constants
+    (`if n > 1 {..return} if n == 0 {..return} if n == 1 {..}`) is exhaustive.  Only comparisons of a *user variable copy*
+    against integer literals < 64 are considered; values are checked over 0..=64 (65 stands for 'anything larger')."""
+    g = cfg_of(body)
+    # origin of a local: follow plain copies back to a root local
+    copy_of = {}
+    for b in body.blocks:
+        for s in b["stmts"]:
+            rv = s["rv"]
+            if rv["k"] == "use" and rv["a"][0] in ("cp", "mv") and len(rv["a"][1]) == 1 and len(s["d"]) == 1:
+                copy_of.setdefault(s["d"][0], rv["a"][1][0])
+
+    def root(l):
+        seen = set()
+        while l in copy_of and l not in seen:
+            seen.add(l)
+            l = copy_of[l]
+        return l
+    # tests: block -> (root var, rel(var,k), k, true_target, false_target)
+    tests = {}
+    for b in body.blocks:
+        t = b["term"]
+        if b["cleanup"] or t["k"] != "switch" or t["on"][0] not in ("cp", "mv") or len(t["on"][1]) != 1:
+            continue
+        l = t["on"][1][0]
+        for s in b["stmts"]:
+            rv = s["rv"]
+            if s["d"] == [l] and rv["k"] == "bin" and rv["op"] in _REL:
+                ka, kb = _const_small_int(rv["a"]), _const_small_int(rv["b"])
+                if kb is not None and rv["a"][0] in ("cp", "mv") and len(rv["a"][1]) == 1 and kb < 64:
+                    var, rel, k = root(rv["a"][1][0]), rv["op"], kb
+                elif ka is not None and rv["b"][0] in ("cp", "mv") and len(rv["b"][1]) == 1 and ka < 64:
+                    var, rel, k = root(rv["b"][1][0]), _SWAP[rv["op"]], ka
+                else:
+                    continue
+                f = [d for v, d in t["targets"] if v == "0"]
+                if len(f) == 1:
+                    tests[b["id"]] = (var, rel, k, t["otherwise"], f[0])
+    if len(tests) < 2:
+        return set()
+    # a variable must be assigned once for this to be sound
+    ndef = {}
+    for b in body.blocks:
+        for s in b["stmts"]:
+            if len(s["d"]) == 1:
+                ndef[s["d"][0]] = ndef.get(s["d"][0], 0) + 1
+        if b["term"]["k"] == "call" and len(b["term"]["d"]) == 1:
+            ndef[b["term"]["d"][0]] = ndef.get(b["term"]["d"][0], 0) + 1
+    out = set()
+    for bid, (var, rel, k, tt, ft) in tests.items():
+        if ndef.get(var, 0) > 1:
+            continue
+        # constraints from dominating tests on the same variable
+        cons = []
+        for did, (v2, r2, k2, t2, f2) in tests.items():
+            if did == bid or v2 != var or not g.dominates(did, bid):
+                continue
+            # which side of `did` leads here?  reachable from exactly one side
+            from_t = bid in g.reach((t2,), cut={(did, f2)})
+            from_f = bid in g.reach((f2,), cut={(did, t2)})
+            # remove paths going back through did
+            if from_t and not from_f:
+                cons.append((r2, k2))
+            elif from_f and not from_t:
+                cons.append((_NEG[r2], k2))
+        if not cons:
+            continue
+        dom = [a for a in range(0, 130) if all(_REL[r](a, kk) for r, kk in cons)]
+        if not dom:
+            continue
+        if not any(_REL[rel](a, k) for a in dom):
+            out.add((bid, tt))
+        if all(_REL[rel](a, k) for a in dom):
+            out.add((bid, ft))
+    return out
